@@ -711,3 +711,49 @@ def _parent_of(f: Def, node: ast.AST):
             if ch is node:
                 return p
     return None
+
+
+@rule("EXEC-EQ-1", props=["C18", "C19"], floor=6)
+def exec_eq(ctx: Ctx) -> None:
+    """Spec equality compares executors with DagExecutor.__eq__ = same name and same `kwargs`:
+    every option an executor is constructed with therefore lives in `self.kwargs` (handed to
+    super().__init__); an option kept in an attribute of its own is invisible to the
+    comparison — two specs that differ only in it compare equal and their arrays are mixed"""
+    repo = ctx.repo
+    base = repo.get(f"{A.RT_TYPES}.DagExecutor")
+    eq = base.children.get("__eq__")
+    ctx.need(eq is not None, "DagExecutor.__eq__ not found")
+    compared = {n.attr for n in eq.own_nodes() if isinstance(n, ast.Attribute) and isinstance(n.value, ast.Name) and n.value.id == (eq.params[0] if eq.params else "self")}
+    ok = {"name", "kwargs"} <= compared
+    ctx.ob(eq, None, ok, f"DagExecutor.__eq__ compares name and kwargs (compares {sorted(compared)})", sel="exec-eq:base")
+    n = 0
+    for cls in repo.subclasses(base):
+        if cls.module.qual.startswith("cubed.tests"):
+            continue
+        n += 1
+        own_eq = cls.children.get("__eq__")
+        init = cls.children.get("__init__")
+        if init is None or not init.is_func:
+            ctx.ob(cls, None, True, f"{cls.name} inherits the constructor: options go to kwargs", sel="exec-eq:options-in-kwargs")
+            continue
+        me = init.params[0] if init.params else "self"
+        named = [p for p in init.params[1:] if p != init.kwarg and p != init.vararg]
+        fl = flow_of(repo, init)
+        kept = []
+        for s_ in init.own_nodes():
+            if isinstance(s_, ast.Assign) and isinstance(s_.targets[0], ast.Attribute) and isinstance(s_.targets[0].value, ast.Name) and s_.targets[0].value.id == me and s_.targets[0].attr != "kwargs":
+                t = fl.taint(s_.value, None) if False else {x.id for x in ast.walk(s_.value) if isinstance(x, ast.Name)}
+                if t & set(named):
+                    kept.append((s_, s_.targets[0].attr))
+        covered = own_eq is not None and all(any(isinstance(a, ast.Attribute) and a.attr == attr for a in own_eq.own_nodes()) for _, attr in kept)
+        ok = not kept or covered
+        ctx.ob(
+            cls,
+            kept[0][0] if kept else None,
+            ok,
+            f"{cls.name}: every constructor option is part of what executors are compared by"
+            + ("" if ok else f" — `self.{kept[0][1]}` holds a constructor option outside `kwargs` and {cls.name} does not compare it: specs that differ only in it are equal, so arrays built under them are combined without complaint"),
+            sel="exec-eq:options-in-kwargs",
+            firm=True,
+        )
+    ctx.need(n >= 6, f"only {n} executor classes found")
